@@ -6,8 +6,9 @@ using namespace vf;
 
 struct Tissue { const char* name; };
 static const char* TISSUES[] = {"one growing cell (remeshing)", "two adhering epithelial cells", "epithelial cell overlapping an ECM cell", "nucleus inside an epithelial cell", "lumen cell next to an epithelial cell, both growing"};
-static const int NTR = 9;
-static const double TR[NTR][3] = {{0.25, 0, 0}, {1.125, -1.125, 0}, {8, -8, 8}, {1024, 1024, 1024}, {-5, -2.5, -1.5}, {-1024, 2048, 0.5}, {131072, -65536, 32768}, {-3.5, -1.25, -0.75} /* puts the vertex of the first cell that faces its neighbour (the middle of the contact zone of the two-cell tissues) exactly at the coordinate origin */, {-2.0, -1.25, -0.75} /* the tissue's reference point half a cell size from the coordinate origin: the origin lies inside the first cell, off its centre */};
+static const int NTR = 10;
+static const double TR[NTR][3] = {{0.25, 0, 0}, {1.125, -1.125, 0}, {8, -8, 8}, {1024, 1024, 1024}, {-5, -2.5, -1.5}, {-1024, 2048, 0.5}, {131072, -65536, 32768}, {-3.5, -1.25, -0.75} /* puts the vertex of the first cell that faces its neighbour (the middle of the contact zone of the two-cell tissues) exactly at the coordinate origin */, {-2.0, -1.25, -0.75} /* the tissue's reference point half a cell size from the coordinate origin: the origin lies inside the first cell, off its centre */,
+    {-2048, -1536, -1024} /* the whole tissue far away in the octant where every coordinate is negative */};
 static const double ORIGIN[3] = {2.5, 1.25, 0.75};
 
 static std::vector<sw::CellSpec> make_tissue(int t, const double tr[3], double eps_node0) {
@@ -97,7 +98,7 @@ static std::string check_division(int tri, std::string* note, bool early = false
 static void explore(Result& R) {
     const bool th = R.args.thorough(); long cases = 0, inconcl = 0, iters = 0; double worst = 0;
     std::vector<int> Ns = th ? std::vector<int>{10, 50, 200} : std::vector<int>{10, 40};
-    for (int t = 0; t < 5; t++) for (int tr = 0; tr < NTR; tr++) for (int N : (tr == NTR - 1 && (t == 1 || t == 2) && !th ? std::vector<int>{10, 40, 200} : Ns)) {   /* the contact-at-the-origin placement of the two-cell tissues also with the long run in the quick tier */ if (R.out_of_time(0.9)) { R.cap("deadline"); goto done; }
+    for (int t = 0; t < 5; t++) for (int tr = 0; tr < NTR; tr++) for (int N : (tr == 7 /* contact at the origin */ && (t == 1 || t == 2) && !th ? std::vector<int>{10, 40, 200} : Ns)) {   /* the contact-at-the-origin placement of the two-cell tissues also with the long run in the quick tier */ if (R.out_of_time(0.9)) { R.cap("deadline"); goto done; }
         progress("tissue=" + std::to_string(t) + "\ntr=" + std::to_string(tr) + "\nN=" + std::to_string(N) + "\n");
         Out o = check(t, tr, N); cases++; iters += 6L * N;
         if (o.err.rfind("INTERNAL", 0) == 0) { R.internal_error = o.err; return; }
